@@ -326,8 +326,12 @@ func proxyGenerated(m *msg) bool {
 }
 
 // runOrigin plays the origin server on one upstream connection.
-func runOrigin(p *plan, o *obs, mu *sync.Mutex, c *bconn) {
-	defer c.Close()
+func runOrigin(p *plan, o *obs, mu *sync.Mutex, bc *bconn) {
+	defer bc.Close()
+	// like a real server the origin gives up on a connection on which nothing moves for a minute
+	// (fake time): it may be blocked writing to a peer that does not read, or waiting for a body
+	c := &idleConn{c: bc, t: time.AfterFunc(originIdle, func() { bc.Close() })}
+	defer c.t.Stop()
 	br := bufio.NewReaderSize(recReader{c, &o.OriginRaw, mu}, 4096)
 	fw := &fragWriter{w: c, sizes: p.T.WriteO, limit: -1}
 	for k := 0; ; k++ {
@@ -399,4 +403,23 @@ func (p *respPlan) truncPoint(reqMethod string) int {
 		return -1
 	}
 	return p.TruncateAt % len(p.finalWire(reqMethod))
+}
+
+const originIdle = time.Minute
+
+type idleConn struct {
+	c *bconn
+	t *time.Timer
+}
+
+func (i *idleConn) Read(b []byte) (int, error) {
+	n, err := i.c.Read(b)
+	i.t.Reset(originIdle)
+	return n, err
+}
+
+func (i *idleConn) Write(b []byte) (int, error) {
+	n, err := i.c.Write(b)
+	i.t.Reset(originIdle)
+	return n, err
 }
